@@ -4,8 +4,10 @@ with scripted rail actions, a prompt-recording fake LLM and deterministic embedd
 A *case* (JSON):
   {"ver": "1.0"|"2.x", "dialog": bool, "exc": bool, "in": [rail ids in configured order], "out": [rail ids],
    "carry": "messages"|"state"|"fresh" (messages, but no events cache: stateless deployment), "gen": "std"|"pt"|"ptp"|"ptfn"|"single" (1.0 generation mode), "front": bool,
+   "usaid": "something"|"plain"|"regex" (2.x without dialog rails: how the answering flow waits for the user),
    "turns": [{"user": str, "bot": str, "intent": "flow"|"free"|"act",
-              "vin":  [[id, verdict]..], "vout": [[id, verdict]..], "act_fault": bool, "retr_fault": bool}]}
+              "vin":  [[id, verdict]..], "vout": [[id, verdict]..], "act_fault": bool, "retr_fault": bool,
+              "exc_kind": one of EXC_KINDS (the exception value every scripted fault of the turn raises)}]}
   verdict = "a" (accept) | "r" (reject) | ["w", text] (rewrite) | "f" (the rail's action raises)
 
 An *observation*: per turn {"steps": [...], "reply": {"role", "content"|"exc"}, "raised": None|str}
@@ -205,6 +207,16 @@ flow {name}
 """
 
 
+# how the answering flow of the 2.x non-dialog configuration waits for the user ("usaid" of a case)
+PLAIN_TEXT = "plain question Uplainx"
+REGEX_WORD = "magicword"
+USAID_FORMS = {
+    "something": "user said something",
+    "plain": 'user said "%s"' % PLAIN_TEXT,
+    "regex": 'user said (regex("(?i).*%s.*"))' % REGEX_WORD,
+}
+
+
 def v2_colang(case):
     parts = ["import core", "import guardrails", "import llm", ""]
     if case["dialog"]:
@@ -228,10 +240,10 @@ flow main
   activate answering
 
 flow answering
-  user said something
+  %s
   $answer = ..."Answer the question of the user."
   bot say $answer
-""")
+""" % USAID_FORMS[case.get("usaid", "something")])
     sc = bool(case.get("sc"))
     if sc:
         parts.insert(3, "import nemoguardrails.library.self_check.input_check\nimport nemoguardrails.library.self_check.output_check")
@@ -247,6 +259,29 @@ flow answering
 
 
 # ------------------------------------------------------------------ scripted actions and LLM
+
+EXC_KINDS = ["msg", "empty", "multiline", "timeout", "assert", "notimpl", "keyerror"]
+
+
+def _raise_fault(where):
+    """Raise the turn's scripted exception VALUE (`exc_kind` of the turn): with a message, with an empty `str()`
+    (ValueError(), asyncio.TimeoutError(), a bare assert, NotImplementedError()), with a multi-line message.
+    BaseException subclasses (KeyboardInterrupt, CancelledError) are not faults of the action in the property's sense."""
+    kind = (_STATE["script"] or {}).get("exc_kind", "msg")
+    if kind == "empty":
+        raise ValueError()
+    if kind == "multiline":
+        raise RuntimeError(f"scripted fault in {where}\nsecond line of the message\n  third line")
+    if kind == "timeout":
+        raise asyncio.TimeoutError()
+    if kind == "assert":
+        assert False
+    if kind == "notimpl":
+        raise NotImplementedError()
+    if kind == "keyerror":
+        raise KeyError("missing key in " + where)
+    raise ScriptedFault(f"scripted fault in {where}")
+
 
 def _verdict(kind, i):
     t = _STATE["script"]
@@ -265,14 +300,23 @@ def _system_action(fn):
 
 
 def _make_check(kind, i):
-    async def check(context: dict = None):
+    """Rail check action. Even rail ids are async functions, odd ids plain (synchronous) functions - the dispatcher
+    supports both; the dialog action below is a class-based action."""
+    def body(context):
         var = "user_message" if kind == "in" else "bot_message"
         text = (context or {}).get(var)
-        _STATE["rec"].append(["rail", kind, i, text])
+        _STATE["rec"].append(["rail", kind, i, text if isinstance(text, (str, type(None))) else repr(text)])
         v = _verdict(kind, i)
         if v == "f":
-            raise ScriptedFault(f"scripted fault in {kind} rail {i}")
+            _raise_fault(f"{kind} rail {i}")
         return v != "r"
+
+    if i % 2 == 0:
+        async def check(context: dict = None):
+            return body(context)
+    else:
+        def check(context: dict = None):
+            return body(context)
 
     check.__name__ = f"rail_{kind}_{i}_check"
     return _system_action(check)
@@ -291,11 +335,14 @@ def _make_mask(kind, i):
     return _system_action(mask)
 
 
-async def dialog_act():
-    _STATE["rec"].append(["act", "dialog_act"])
-    if _STATE["script"].get("act_fault"):
-        raise ScriptedFault("scripted fault in dialog action")
-    return True
+class DialogAct:
+    """Class-based custom action of the dialog flow (instantiated lazily by the dispatcher, `run` is synchronous)."""
+
+    def run(self, **kwargs):
+        _STATE["rec"].append(["act", "dialog_act"])
+        if _STATE["script"].get("act_fault"):
+            _raise_fault("dialog action")
+        return True
 
 
 async def retrieve_relevant_chunks():
@@ -304,7 +351,7 @@ async def retrieve_relevant_chunks():
 
     _STATE["rec"].append(["act", "retrieve"])
     if _STATE["script"].get("retr_fault"):
-        raise ScriptedFault("scripted fault in retrieve_relevant_chunks")
+        _raise_fault("retrieve_relevant_chunks")
     return ActionResult(return_value="", context_updates={"relevant_chunks": ""})
 
 
@@ -362,7 +409,8 @@ def _q(s):
 
 
 def config_key(case):
-    return (case["ver"], bool(case["dialog"]), bool(case["exc"]), tuple(case["in"]), tuple(case["out"]), bool(case.get("sc")), case.get("gen", "std") if case["ver"] == "1.0" else "std")
+    return (case["ver"], bool(case["dialog"]), bool(case["exc"]), tuple(case["in"]), tuple(case["out"]), bool(case.get("sc")), case.get("gen", "std") if case["ver"] == "1.0" else "std",
+            case.get("usaid", "something") if case["ver"] == "2.x" and not case["dialog"] else "-")
 
 
 def get_rails(case):
@@ -398,7 +446,7 @@ def get_rails(case):
                     rails.register_action(_make_mask(kind, i), f"rail_{kind}_{i}_mask")
                 else:
                     rails.register_action(_make_check(kind, i), f"Rail{kind.capitalize()}{i}CheckAction")
-        rails.register_action(dialog_act, "dialog_act" if case["ver"] == "1.0" else "DialogActAction")
+        rails.register_action(DialogAct, "dialog_act" if case["ver"] == "1.0" else "DialogActAction")
         if case["ver"] == "1.0":
             rails.register_action(retrieve_relevant_chunks, "retrieve_relevant_chunks")
             if case.get("gen") == "ptfn":
